@@ -141,6 +141,12 @@ func originOf(f *ssa.Function) *ssa.Function {
 
 // emptinessField: fn returns the vertices v with len(v.<field>) == 0; returns <field>.
 func emptinessField(fn *ssa.Function) string {
+	// the test may sit in a predicate literal handed to a shared filter
+	for _, an := range fn.AnonFuncs {
+		if f := emptinessField(an); f != "" {
+			return f
+		}
+	}
 	for _, b := range fn.Blocks {
 		for _, in := range b.Instrs {
 			bo, ok := in.(*ssa.BinOp)
